@@ -185,6 +185,51 @@ theorem waiting_distance_decreases (c : Cfg) (hn : 0 < c.n) (inp : Nat → In) (
     unfold Arb.dist
     split <;> omega
 
+/-! ## composition: an arbiter in front of a decoder preserves the handshake -/
+
+/-- every initiator follows the handshake towards the arbiter: a request it presents (cyc and stb) is held unchanged
+    into the next cycle unless the arbiter shows it an acknowledge in this one (a waiting initiator sees none) -/
+def IntrCompliant (c : Cfg) (inp : Nat → In) : Prop :=
+  ∀ t i, ((inp t).req i).cyc = true → ((inp t).req i).stb = true →
+    (intrOut c (grantAt c inp t) (inp t) i).ack = false → (inp (t + 1)).req i = (inp t).req i
+
+/-- THE SHARED BUS FOLLOWS THE HANDSHAKE TOO: if every initiator does, then a request on the shared bus (cyc and stb) that is
+    not acknowledged in this cycle is there unchanged in the next one — the owner does not change and neither does what it
+    drives. This is the hypothesis `Compliant` of the closed root system (`Props/C01S.lean`): a hierarchy behind an arbiter
+    sees a handshake-following initiator whenever the arbiter's own initiators are. -/
+theorem arbiter_preserves_handshake (c : Cfg) (inp : Nat → In) (h : IntrCompliant c inp) (t : Nat)
+    (hcyc : (busOut c (grantAt c inp t) (inp t)).cyc = true) (hstb : (busOut c (grantAt c inp t) (inp t)).stb = true)
+    (hnack : (inp t).resp.ack = false) :
+    grantAt c inp (t + 1) = grantAt c inp t ∧
+    busOut c (grantAt c inp (t + 1)) (inp (t + 1)) = busOut c (grantAt c inp t) (inp t) := by
+  have hbusy : busy c (grantAt c inp t) (inp t) = true := by
+    unfold busy
+    simp only [hcyc, hstb, Bool.or_true, Bool.and_self, ite_self]
+  have hg : grantAt c inp (t + 1) = grantAt c inp t := by
+    show nextGrant c (grantAt c inp t) (inp t) = grantAt c inp t
+    unfold nextGrant
+    rw [if_pos hbusy]
+  have hack : (intrOut c (grantAt c inp t) (inp t) (grantAt c inp t)).ack = false := by
+    unfold intrOut
+    rw [if_pos rfl]
+    exact hnack
+  have hreq := h t (grantAt c inp t) hcyc hstb hack
+  refine ⟨hg, ?_⟩
+  rw [hg]
+  unfold busOut
+  rw [hreq]
+
+/-- non-vacuity of the handshake hypothesis: two initiators that keep requesting (never acknowledged) follow it, and the
+    shared bus then carries initiator 1's request — the owner after the idle initiator 0 — from cycle 1 on, unchanged -/
+example :
+    let f : Feat := ⟨false, false, false, false, false, false⟩
+    let c : Cfg := ⟨2, f, fun _ => f, fun _ => 1, fun _ => 1⟩
+    let want : Req := ⟨true, true, false, false, 4, 0, fun _ => true, 0, 0⟩
+    let idle : Req := ⟨false, false, false, false, 0, 0, fun _ => false, 0, 0⟩
+    let inp : Nat → In := fun _ => ⟨fun p => if p = 1 then want else idle, ⟨false, false, false, false, 0⟩⟩
+    IntrCompliant c inp ∧ grantAt c inp 1 = 1 ∧ (busOut c (grantAt c inp 1) (inp 1)).cyc = true := by
+  refine ⟨fun _ _ _ _ _ => rfl, by decide, by decide⟩
+
 /-- non-vacuity: three initiators, owner 0 idle, 1 and 2 request: 1 (closest after 0) gets the bus;
     then with 1 holding the bus (cyc & stb, LOCK supported) nothing changes; then 2 gets it -/
 example :
